@@ -29,6 +29,7 @@ VObj(id)  == [t |-> "obj", id |-> id]
 VFn(code, cap, this) == [t |-> "fn", code |-> code, cap |-> cap, this |-> this]
 VBound(o, m) == [t |-> "bound", o |-> o, m |-> m]   \* built-in method bound to a receiver
 VModule(n) == [t |-> "module", name |-> n]
+VClass(decl, cap) == [t |-> "class", decl |-> decl, cap |-> cap]
 
 MaxI == 2147483647
 MinI == -2147483647 - 1
@@ -93,7 +94,7 @@ Visible(env) == Flatten(env.own, 1, env.cap)
 -----------------------------------------------------------------------------
 (* free variables of a function literal: what it captures.  A function that *)
 (* captures nothing is not a closure (C07).                                   *)
-RECURSIVE FVE(_), FVSeq(_, _), FVB(_, _, _), FVS(_, _)
+RECURSIVE FVE(_), FVSeq(_, _), FVB(_, _, _), FVS(_, _), ClassFV(_)
 FVSeq(es, i) == IF i > Len(es) THEN {} ELSE FVE(es[i]) \cup FVSeq(es, i + 1)
 FVFn(f) == FVB(f.b, 1, {f.ps[k].n : k \in 1..Len(f.ps)} \cup {"self"})
 FVE(e) ==
@@ -110,7 +111,7 @@ FVE(e) ==
       [] e.k = "unwrapinto" -> FVE(e.e)
       [] e.k = "fn" -> FVFn(e)
       [] OTHER -> {}
-Declares(s) == IF s.k = "let" /\ ~s.mod THEN {s.n}
+Declares(s) == IF (s.k = "let" /\ ~s.mod) \/ s.k = "class" THEN {s.n}
                ELSE IF s.k = "expr" /\ s.e.k = "unwrapinto" THEN {s.e.n} ELSE {}
 FVS(s, bound) ==
     CASE s.k = "let" -> (FVE(s.e) \cup (IF s.mod THEN {s.n} ELSE {})) \ bound
@@ -121,7 +122,13 @@ FVS(s, bound) ==
       [] s.k = "from" -> ((FVE(s.a) \cup FVE(s.z) \cup FVSeq(s.step, 1)) \ bound)
                          \cup FVB(s.b, 1, bound \cup (IF s.n = "" THEN {} ELSE {s.n}))
       [] s.k = "assign" -> (FVE(s.target) \cup FVE(s.e)) \ bound
+      [] s.k = "class" -> ClassFV(s) \ bound
       [] OTHER -> {}
+ClassFV(c) ==
+    LET RECURSIVE MFV(_, _)
+        MFV(ms, i) == IF i > Len(ms) THEN {}
+                      ELSE FVB(ms[i].b, 1, {ms[i].ps[k].n : k \in 1..Len(ms[i].ps)} \cup {"self", "Self", c.n}) \cup MFV(ms, i + 1)
+    IN MFV(c.ctor, 1) \cup MFV(c.methods, 1)
 FVB(ss, i, bound) == IF i > Len(ss) THEN {} ELSE FVS(ss[i], bound) \cup FVB(ss, i + 1, bound \cup Declares(ss[i]))
 
 Capture(f, env) == LET vis == Visible(env) fv == FVFn(f) \cap DOMAIN vis IN [n \in fv |-> vis[n]]
@@ -228,6 +235,7 @@ BinOp(op, a, b, st) ==
 -----------------------------------------------------------------------------
 (* the evaluator *)
 RECURSIVE Eval(_, _, _), EvalSeq(_, _, _, _, _), Exec(_, _, _), ExecBlock(_, _, _, _), ImportStmt(_, _, _),
+          Construct(_, _, _), CallMethod(_, _, _, _), RunMember(_, _, _, _, _),
           CallValue(_, _, _), WhileLoop(_, _, _, _), FromLoop(_, _, _, _, _, _), BindParams(_, _, _, _, _),
           Builtin(_, _, _, _), AssignTo(_, _, _, _)
 
@@ -314,7 +322,21 @@ Eval(e, env, st) ==
            LET o == Eval(e.o, env, st) IN
            IF ~IsOk(o.st) THEN o
            ELSE LET a == EvalSeq(e.args, 1, env, o.st, <<>>) IN
-                IF ~IsOk(a.st) THEN R(VNil, a.st) ELSE Builtin(o.v, e.m, a.v, a.st)
+                IF ~IsOk(a.st) THEN R(VNil, a.st)
+                ELSE IF o.v.t = "obj" THEN CallMethod(o.v, e.m, a.v, a.st)
+                ELSE IF o.v.t = "module" THEN
+                     (IF e.m \in DOMAIN a.st.modexp[o.v.name] THEN CallValue(a.st.cells[a.st.modexp[o.v.name][e.m]], a.v, a.st)
+                      ELSE R(VNil, FailWith(a.st, "type")))
+                ELSE IF o.v.t = "nil" THEN R(VNil, FailWith(a.st, "nil"))
+                ELSE Builtin(o.v, e.m, a.v, a.st)
+      [] e.k = "new" ->
+           LET cv == IF e.cls = "Self"
+                     THEN (LET c == Lookup(env, "self") IN
+                           IF c = 0 \/ st.cells[c].t # "obj" THEN VNil ELSE st.objs[st.cells[c].id].class)
+                     ELSE (LET c == Lookup(env, e.cls) IN IF c = 0 THEN VNil ELSE st.cells[c]) IN
+           IF cv.t # "class" THEN R(VNil, FailWith(st, "type"))
+           ELSE LET a == EvalSeq(e.args, 1, env, st, <<>>) IN
+                IF ~IsOk(a.st) THEN R(VNil, a.st) ELSE Construct(cv, a.v, a.st)
       [] e.k = "get" ->
            LET r == Eval(e.e, env, st) IN
            IF ~IsOk(r.st) THEN r
@@ -344,6 +366,36 @@ CallValue(f, args, st) ==
          IF Failed(r) THEN R(VNil, r)
          ELSE R(IF r.status = "return" THEN r.retv ELSE VNil,
                 [r EXCEPT !.status = "ok", !.retv = VNil, !.stack = st.stack])
+
+(* objects: a constructor call makes a fresh object whose fields are fresh cells; a method *)
+(* (or the constructor) runs in an activation where `self` is the object, parameters are   *)
+(* fresh cells and the names the class captured from its defining scope are visible        *)
+FindMember(ms, i, n) == LET hits == {k \in 1..Len(ms) : ms[k].n = n} IN IF hits = {} THEN 0 ELSE CHOOSE k \in hits : TRUE
+RunMember(obj, member, args, label, st) ==
+    IF Len(args) # Len(member.ps) THEN R(VNil, FailWith(st, "type"))
+    ELSE IF st.fuel <= 0 \/ Len(st.stack) > 60 THEN R(VNil, FailWith(st, "fuel"))
+    ELSE LET cls == st.objs[obj.id].class
+             s0 == NewCell([st EXCEPT !.fuel = @ - 1, !.stack = Append(@, label)], obj)
+             p == BindParams(member.ps, args, 1, Bind(NoFrame, "self", LastCell(s0)), s0)
+             env == [own |-> <<p.env>>, cap |-> cls.cap]
+             r == ExecBlock(member.b, 1, env, p.st).st IN
+         IF Failed(r) THEN R(VNil, r)
+         ELSE R(IF r.status = "return" THEN r.retv ELSE VNil, [r EXCEPT !.status = "ok", !.retv = VNil, !.stack = st.stack])
+RECURSIVE FieldCells(_, _, _, _)
+FieldCells(fs, i, st, acc) == IF i > Len(fs) THEN ER(acc, st)
+                              ELSE LET s2 == NewCell(st, VNil) IN FieldCells(fs, i + 1, s2, Bind(acc, fs[i].n, LastCell(s2)))
+Construct(cv, args, st) ==
+    LET fc == FieldCells(cv.decl.fields, 1, st, NoFrame)
+        s1 == [fc.st EXCEPT !.objs = Append(@, [class |-> cv, fields |-> fc.env])]
+        obj == VObj(Len(s1.objs)) IN
+    IF Len(cv.decl.ctor) = 0 THEN (IF Len(args) = 0 THEN R(obj, s1) ELSE R(VNil, FailWith(s1, "type")))
+    ELSE LET r == RunMember(obj, cv.decl.ctor[1], args, cv.decl.n \o "::$constructor", s1) IN
+         IF ~IsOk(r.st) THEN R(VNil, r.st) ELSE R(obj, r.st)
+CallMethod(obj, m, args, st) ==
+    LET cls == st.objs[obj.id].class
+        k == FindMember(cls.decl.methods, 1, m) IN
+    IF k = 0 THEN R(VNil, FailWith(st, "type"))
+    ELSE RunMember(obj, cls.decl.methods[k], args, cls.decl.n \o "::" \o m, st)
 
 (* built-in methods of lists, maps, strings and functions.  Lists are heap sequences, *)
 (* maps are heap sequences of [k, v] entries with distinct keys (the order is a model  *)
@@ -473,6 +525,12 @@ Exec(s, env, st) ==
                      ER(w.env, [w.st EXCEPT !.modexp[nm] = Bind(@, s.n, LookupOwn(w.env, s.n))])
                 ELSE w
       [] s.k = "import" -> ImportStmt(s, env, st)
+      [] s.k = "class" ->
+           LET vis == Visible(env)
+               fv == ClassFV(s) \cap DOMAIN vis
+               c == Len(st.cells) + 1
+               s2 == NewCell(st, VClass(s, [n \in fv \cup {s.n} |-> IF n = s.n THEN c ELSE vis[n]])) IN
+           ER(BindTop(env, s.n, LastCell(s2)), s2)
       [] s.k = "print" ->
            LET r == EvalB(s.e, env, st) IN
            IF ~IsOk(r.st) THEN ER(env, r.st) ELSE ER(r.env, Emit(r.st, Show(r.v, r.st, FALSE)))
@@ -544,6 +602,17 @@ AssignTo(s, env, st, dummy) ==
              ELSE LET b == BinOp(s.op, r.st.lists[o.v.id][i.v.v + 1], r.v, r.st) IN
                   IF ~IsOk(b.st) THEN ER(env, b.st)
                   ELSE ER(env, [b.st EXCEPT !.lists[o.v.id][i.v.v + 1] = b.v])
+    ELSE IF s.target.k = "fld" THEN
+        LET o == Eval(s.target.o, env, st) IN
+        IF ~IsOk(o.st) THEN ER(env, o.st)
+        ELSE IF o.v.t = "nil" THEN ER(env, FailWith(o.st, "nil"))
+        ELSE IF o.v.t # "obj" \/ s.target.n \notin DOMAIN o.st.objs[o.v.id].fields THEN ER(env, FailWith(o.st, "type"))
+        ELSE LET c == o.st.objs[o.v.id].fields[s.target.n]
+                 r == Eval(s.e, env, o.st) IN
+             IF ~IsOk(r.st) THEN ER(env, r.st)
+             ELSE IF s.op = "=" THEN ER(env, SetCell(r.st, c, r.v))
+             ELSE LET b == BinOp(s.op, r.st.cells[c], r.v, r.st) IN
+                  IF ~IsOk(b.st) THEN ER(env, b.st) ELSE ER(env, SetCell(b.st, c, b.v))
     ELSE ER(env, FailWith(st, "type"))
 
 (* import m  /  import a, b from m : the first executed import of a module runs its top-level *)
